@@ -658,6 +658,8 @@ def documented_keys_usable(ctx, rng, reg, files, rec, tmp):
                 ent[key] = '1'
         if info['name'] == 'ChemistryFile':
             ent.update(filename=files['chem'], gases='H2O, CH4')
+        if info['name'] == 'TaurexChemistry' and key == 'fill_gases':
+            ent[key] = 'H2, He'            # more fill gases need a matching list of ratios
         if info['name'] == 'NPoint' and key in ('temperature_points', 'pressure_points'):
             ent.update(temperature_points='1200, 900', pressure_points='1e4, 1e2')
         if sec == 'Gas':
